@@ -179,7 +179,7 @@ def main(argv=None):
         e = dict(d, mode="interp", name=d["name"].replace("jit", "interp"))
         for k in ("n", "big", "chain"):
             if isinstance(e.get(k), int):
-                e[k] = max(1, e[k] // 3)
+                e[k] = max(1, e[k] // (3 if tier == "quick" else 25))     # interpreted kernels are ~50x slower: the thorough counts are JIT counts
         shards.append(e)
     # one more execution mode of the same source: the interpreter run with -O (assert statements stripped). One random numpy shard
     # per property is repeated that way (JIT and interpreted kernels alike keep their asserts only when __debug__ is true)
